@@ -2,65 +2,112 @@
    Only statements; the model is theories/State/Crash.v (run_ops, crash, make_attempt, lazy_decision), proofs are in
    theories/State/CrashProofs.v and CrashSafe.v.
 
-   safe_at cal p e n k: after a crash of the regeneration of project p (edited by e) after n mutations, each of k
+   safe_at v p e n k: after a crash of the regeneration of project p (edited by e) after n mutations, each of k
    successive make runs either fails visibly or leaves the build file and every declared output of the regeneration
-   step describing the edited project.  cal = false is the code as written. *)
+   step describing the edited project.  safe_all_at additionally counts compile_commands.json.
+   The variant v selects the code: v_old = builtins/find.py before the repairs F1 (find_check_cache distrusts a cache
+   newer than the build file) and F2 (write_depfile writes .bfg_find_deps.tmp and renames it into place),
+   v_repaired = with both.  The check detects which variant the tree under test contains and ties that one. *)
 From Coq Require Import List Bool Arith.
 From BFG Require Import State.Crash State.CrashProofs State.CrashSafe.
 Import ListNotations.
 
-(* the property is false of the code as written: with find_files and only a new matching file, a crash right after
+(* ---- the code before the repairs (documents the two repaired defects) ---- *)
+
+(* the property is false of the old code: with find_files and only a new matching file, a crash right after
    the find cache was saved and before the build file is opened makes both follow-up makes succeed while the build
    file still describes the old project (DESIGN 7.8) *)
 Theorem C10_safe_refuted : exists p e n,
-  valid p e = true /\ n = window_pt p /\ n <= length (run_ops false p) /\ safe_at false p e n 2 = false.
+  valid p e = true /\ n = window_pt v_old p /\ n <= length (run_ops v_old p) /\ safe_at v_old p e n 2 = false.
 Proof. exists (mkP true 0 true), (mkE false true false), 6. vm_compute. repeat split; auto. Qed.
 Print Assumptions C10_safe_refuted.
 
 (* a second refutation found by the fault injection: a crash between open and close of .bfg_find_deps leaves the
    depfile empty, the old Makefile loses its dependency on the watched directories, make does not even start
-   bfg9000; saving the cache last does not repair this one *)
-Theorem C10_safe_refuted_depfile : exists p e n, forall cal,
-  valid p e = true /\ n = deps_pt p /\ safe_at cal p e n 2 = false.
-Proof. exists (mkP true 1 true), (mkE false true false), 6. intros []; vm_compute; repeat split; auto. Qed.
+   bfg9000; neither saving the cache last nor F1 repairs this one (any variant that writes the depfile in place) *)
+Theorem C10_safe_refuted_depfile : exists p e n, forall c d,
+  valid p e = true /\ n = deps_pt p /\ safe_at (mkV c false d) p e n 2 = false.
+Proof. exists (mkP true 1 true), (mkE false true false), 6. intros [] []; vm_compute; repeat split; auto. Qed.
 Print Assumptions C10_safe_refuted_depfile.
 
-(* every other crash point is safe: for ALL projects (any number of immediate files), all visible edits, all n
-   (also beyond the end of the run = uninterrupted), any number of follow-ups *)
-Theorem C10_safe_partial : forall p e n k,
-  valid p e = true -> bad_point false p e n = false -> safe_at false p e n k = true.
-Proof. intros. apply safe_partial; assumption. Qed.
+(* every other crash point is safe, for EVERY variant: for ALL projects (any number of immediate files), all visible
+   edits, all n (also beyond the end of the run = uninterrupted), any number of follow-ups.  For v_old the guard
+   excludes exactly deps_pt and window_pt *)
+Theorem C10_safe_partial : forall v p e n k,
+  valid p e = true -> bad_point v p e n = false -> safe_at v p e n k = true.
+Proof. exact safe_partial. Qed.
 Print Assumptions C10_safe_partial.
 
-(* the natural repair (save the find cache after the build file has been written) closes the window: only the
-   truncated depfile remains *)
+(* an alternative repair (save the find cache after the build file has been written) closes the window as well:
+   only the truncated depfile remains *)
 Theorem C10_safe_if_cache_saved_last : forall p e n k,
-  valid p e = true -> n <> deps_pt p -> safe_at true p e n k = true.
+  valid p e = true -> n <> deps_pt p -> safe_at v_cal p e n k = true.
 Proof. exact safe_cache_last. Qed.
 Print Assumptions C10_safe_if_cache_saved_last.
 
+(* ---- the repaired code ---- *)
+
+(* F1 + F2: NO crash point is left after which a follow-up make succeeds on a stale build file or a stale declared
+   output: all projects, all visible edits, all n, all k *)
+Theorem C10_safe_repaired : forall p e n k, valid p e = true -> safe_at v_repaired p e n k = true.
+Proof. exact safe_repaired. Qed.
+Print Assumptions C10_safe_repaired.
+
+(* counting compile_commands.json as well, the only unsafe crash points are those of the compile_commands.json
+   window: from the completion of the build file up to (excluding) the completion of compile_commands.json *)
+Theorem C10_safe_repaired_compdb : forall p e n k,
+  valid p e = true -> compdb_window v_repaired p n = false -> safe_all_at v_repaired p e n k = true.
+Proof.
+  intros p e n k Hv Hw. apply safe_all_repaired; [exact Hv|]. rewrite compdb_stale_window. exact Hw.
+Qed.
+Print Assumptions C10_safe_repaired_compdb.
+
+(* the window as states: exactly the crash states with a complete new build file and an incomplete compdb *)
+Theorem C10_compdb_window_states : forall v p n,
+  compdb_window v p n = (let s := crash 4 n (run_ops v p) (fs_old p) in is_new (f_build s) && negb (compdb_new p s)).
+Proof. intros. symmetry. apply compdb_stale_window. Qed.
+Print Assumptions C10_compdb_window_states.
+
+(* each repair alone closes exactly its own crash point *)
+Theorem C10_safe_F1_only : forall p e n k,
+  valid p e = true -> n <> deps_pt p -> safe_at (mkV false false true) p e n k = true.
+Proof. exact safe_F1_only. Qed.
+Print Assumptions C10_safe_F1_only.
+
+Theorem C10_safe_F2_only : forall p e n k,
+  valid p e = true -> n <> window_pt (mkV false true false) p -> safe_at (mkV false true false) p e n k = true.
+Proof. exact safe_F2_only. Qed.
+Print Assumptions C10_safe_F2_only.
+
+(* ---- all variants ---- *)
+
 (* an exception raised by the script or by a rule-emission hook (anywhere before the build file is opened) leaves
    the previous build file untouched, whatever the state and the time *)
-Theorem C10_script_raise_untouched : forall p j t s, j <= length (pre_ops p) ->
-  f_build (apply_ops t (until_raise (run_events p j)) s) = f_build s /\
-  Forall nobuild (until_raise (run_events p j)).
+Theorem C10_script_raise_untouched : forall v p j t s, j <= length (pre_ops v p) ->
+  f_build (apply_ops t (until_raise (run_events v p j)) s) = f_build s /\
+  Forall nobuild (until_raise (run_events v p j)).
 Proof. intros. split; [apply raise_untouched | apply raise_ops_nobuild]; assumption. Qed.
 Print Assumptions C10_script_raise_untouched.
 
 (* a build file left empty or absent makes the next make fail visibly (and change nothing) *)
-Theorem C10_truncated_detected : forall cal p e t s, is_full (f_build s) = false ->
-  make_attempt cal p e t s = (false, s, false).
+Theorem C10_truncated_detected : forall v p e t s, is_full (f_build s) = false ->
+  make_attempt v p e t s = (false, s, false).
 Proof. exact truncated_detected. Qed.
 Print Assumptions C10_truncated_detected.
 
 (* compile_commands.json is outside describes_new (it is not a declared output of the regeneration step): after a
-   crash between the build-file write and the compdb write every follow-up succeeds with correct build files and a
-   stale compile_commands.json *)
-Theorem C10_compdb_stale_refuted : exists p e n,
-  valid p e = true /\ bad_point false p e n = false /\ safe_at false p e n 2 = true /\
+   crash inside the compdb window every follow-up succeeds with correct build files and a stale
+   compile_commands.json - before and after the repairs (open finding) *)
+Theorem C10_compdb_stale_refuted : forall v, v = v_old \/ v = v_repaired -> exists p e n,
+  valid p e = true /\ bad_point v p e n = false /\ compdb_window v p n = true /\ safe_at v p e n 2 = true /\
+  safe_all_at v p e n 2 = false /\
   forallb (fun r => fst (fst r) && negb (compdb_new p (snd (fst r))))
-          (attempts false p e 5 2 (crash 4 n (run_ops false p) (fs_old p))) = true.
-Proof. exists (mkP true 0 true), (mkE false true false), 8. vm_compute. repeat split; auto. Qed.
+          (attempts v p e 5 2 (crash 4 n (run_ops v p) (fs_old p))) = true.
+Proof.
+  intros v [-> | ->].
+  - exists (mkP true 0 true), (mkE false true false), 8. vm_compute. repeat split; auto.
+  - exists (mkP true 0 true), (mkE false true false), 9. vm_compute. repeat split; auto.
+Qed.
 Print Assumptions C10_compdb_stale_refuted.
 
 (* non-vacuity: the guards are satisfiable on a project with find_files, 4 immediate files (stamp indirection) and
@@ -68,15 +115,37 @@ Print Assumptions C10_compdb_stale_refuted.
    with new files; and the bad points are exactly two of the 22 crash points of that run *)
 Example C10_partial_nonvacuous :
   let p := mkP true 4 true in let e := mkE false true false in
-  valid p e = true /\ bad_point false p e 9 = false /\
+  valid p e = true /\ bad_point v_old p e 9 = false /\
   map (fun r => (fst (fst r), snd r, describes_new (snd (fst r))))
-      (attempts false p e 5 2 (crash 4 9 (run_ops false p) (fs_old p))) = [(true, true, true); (true, false, true)] /\
-  filter (fun n => negb (safe_at false p e n 2)) (seq 0 (S (length (run_ops false p)))) = [deps_pt p; window_pt p] /\
-  filter (fun n => negb (safe_at true p e n 2)) (seq 0 (S (length (run_ops true p)))) = [deps_pt p].
+      (attempts v_old p e 5 2 (crash 4 9 (run_ops v_old p) (fs_old p))) = [(true, true, true); (true, false, true)] /\
+  filter (fun n => negb (safe_at v_old p e n 2)) (seq 0 (S (length (run_ops v_old p)))) = [deps_pt p; window_pt v_old p] /\
+  filter (fun n => negb (safe_at v_cal p e n 2)) (seq 0 (S (length (run_ops v_cal p)))) = [deps_pt p].
+Proof. vm_compute. repeat split; reflexivity. Qed.
+
+(* the repaired variant on the same project: 23 crash points, none unsafe for the declared outputs; with
+   compile_commands.json counted exactly the two points of the compdb window; the crash between the close of
+   .bfg_find_deps.tmp and the rename leaves the old depfile and a complete stray .tmp; at the former window point
+   the first follow-up now really regenerates (F1) *)
+Example C10_repaired_nonvacuous :
+  let p := mkP true 4 true in let e := mkE false true false in
+  length (run_ops v_repaired p) = 23 /\
+  filter (fun n => negb (safe_at v_repaired p e n 2)) (seq 0 24) = [] /\
+  filter (fun n => negb (safe_all_at v_repaired p e n 2)) (seq 0 24) = [21; 22] /\
+  filter (compdb_window v_repaired p) (seq 0 24) = [21; 22] /\
+  (let s := crash 4 16 (run_ops v_repaired p) (fs_old p) in (f_deps s, f_tmp s)) = (oldf, mkF (Full New) 4) /\
+  (let s := crash 4 17 (run_ops v_repaired p) (fs_old p) in (f_deps s, f_tmp s)) = (mkF (Full New) 4, absent) /\
+  window_pt v_repaired p = 19 /\
+  map (fun r => (fst (fst r), snd r, describes_new (snd (fst r))))
+      (attempts v_repaired p e 5 2 (crash 4 19 (run_ops v_repaired p) (fs_old p))) = [(true, true, true); (true, false, true)] /\
+  (* F1 alone / F2 alone leave exactly the other point *)
+  filter (fun n => negb (safe_at (mkV false false true) p e n 2)) (seq 0 24) = [deps_pt p] /\
+  filter (fun n => negb (safe_at (mkV false true false) p e n 2)) (seq 0 24) = [19].
 Proof. vm_compute. repeat split; reflexivity. Qed.
 
 Example C10_raise_nonvacuous :
   let p := mkP true 2 true in
-  length (pre_ops p) = 12 /\ until_raise (run_events p 5) = firstn 5 (run_ops false p) /\
-  f_build (apply_ops 4 (until_raise (run_events p 12)) (fs_old p)) = oldf.
+  length (pre_ops v_old p) = 12 /\ until_raise (run_events v_old p 5) = firstn 5 (run_ops v_old p) /\
+  f_build (apply_ops 4 (until_raise (run_events v_old p 12)) (fs_old p)) = oldf /\
+  length (pre_ops v_repaired p) = 13 /\
+  f_build (apply_ops 4 (until_raise (run_events v_repaired p 13)) (fs_old p)) = oldf.
 Proof. vm_compute. repeat split; reflexivity. Qed.
